@@ -52,7 +52,7 @@ def replay(case, ctx):
 
 
 def plan(tier, seed):
-    n, per = (16, 450) if tier == "quick" else (16, 45000)
+    n, per = (16, 2500) if tier == "quick" else (16, 45000)
     sh = []
     for k in range(n):
         kinds = [["pv"], ["pv", "tag"], ["hostile", "pv"], ["tag", "tag2", "pv"]][k % 4]
